@@ -152,6 +152,53 @@ pub struct DumpScn {
     pub packs: Vec<u16>,
     #[serde(default)]
     pub max_content: u32,
+    /// damage applied to `target` (default: `file`) before the dump and undone after it
+    #[serde(default)]
+    pub damage: Option<Damage>,
+}
+
+#[derive(Deserialize, Clone)]
+pub struct Damage {
+    #[serde(default)]
+    pub target: Option<String>,
+    /// "xor" (pos, mask) | "zero" (pos, len) | "fill" (pos, len, mask as fill byte) | "trunc" (len) | "append" (len) | "replace" (whole file := len bytes of junk)
+    pub kind: String,
+    #[serde(default)]
+    pub pos: u64,
+    #[serde(default)]
+    pub len: u64,
+    #[serde(default)]
+    pub mask: u8,
+}
+
+fn apply_damage(orig: &[u8], d: &Damage) -> Vec<u8> {
+    let mut v = orig.to_vec();
+    let pos = d.pos as usize;
+    let len = d.len as usize;
+    match d.kind.as_str() {
+        "xor" => {
+            if pos < v.len() {
+                v[pos] ^= d.mask;
+            }
+        }
+        "zero" | "fill" => {
+            let fill = if d.kind == "zero" { 0 } else { d.mask };
+            for b in v.iter_mut().skip(pos).take(len) {
+                *b = fill;
+            }
+        }
+        "trunc" => v.truncate(len),
+        "append" => {
+            for k in 0..len {
+                v.push((k as u8).wrapping_mul(37) ^ d.mask);
+            }
+        }
+        "replace" => {
+            v = (0..len).map(|k| (k as u8).wrapping_mul(101) ^ d.mask).collect();
+        }
+        k => panic!("unknown damage kind {k}"),
+    }
+    v
 }
 
 fn b3(data: &[u8]) -> String {
@@ -245,6 +292,43 @@ pub fn dump_value(c: &jbk::reader::Container, s: &DumpScn) -> J {
         });
     }
     out.insert("contents".into(), J::Array(packs));
+    // the check of every pack on its own
+    {
+        use jbk::Pack;
+        let mut pc = serde_json::Map::new();
+        let tri = |r: Result<jbk::Result<bool>, String>| match r {
+            Ok(Ok(b)) => json!(b),
+            Ok(Err(e)) => json!({"err": e.to_string()}),
+            Err(p) => json!({"panic": p, "site": crate::out::last_panic_site()}),
+        };
+        pc.insert("d".into(), tri(catch(|| c.get_directory_pack().check())));
+        for pid in &s.packs {
+            let r = catch(|| match c.get_pack(jbk::PackId::from(*pid)) {
+                Ok(Some(MayMissPack::FOUND(p))) => p.check().map(Some),
+                Ok(_) => Ok(None),
+                Err(e) => Err(e),
+            });
+            pc.insert(
+                pid.to_string(),
+                match r {
+                    Ok(Ok(Some(b))) => json!(b),
+                    Ok(Ok(None)) => json!("absent"),
+                    Ok(Err(e)) => json!({"err": e.to_string()}),
+                    Err(p) => json!({"panic": p, "site": crate::out::last_panic_site()}),
+                },
+            );
+        }
+        let m = catch(|| manifest_view(&s.file));
+        pc.insert(
+            "m".into(),
+            match m {
+                Ok(Ok(v)) => v["check"].clone(),
+                Ok(Err(e)) => json!({"err": e}),
+                Err(p) => json!({"panic": p, "site": crate::out::last_panic_site()}),
+            },
+        );
+        out.insert("packChecks".into(), J::Object(pc));
+    }
     let chk = catch(|| c.check());
     out.insert(
         "check".into(),
@@ -259,6 +343,27 @@ pub fn dump_value(c: &jbk::reader::Container, s: &DumpScn) -> J {
 
 pub fn dump(s: &DumpScn) {
     emit(json!({"ev":"Begin","scn":s.id}));
+    let mut undo: Option<(String, Vec<u8>)> = None;
+    if let Some(d) = &s.damage {
+        let target = d.target.clone().unwrap_or_else(|| s.file.clone());
+        let orig = std::fs::read(&target).expect("read damage target");
+        let damaged = apply_damage(&orig, d);
+        let changed = damaged != orig;
+        // new inode: a leaked reader of an earlier case (spinning decoder) keeps the old one
+        let _ = std::fs::remove_file(&target);
+        std::fs::write(&target, &damaged).expect("write damaged file");
+        emit(json!({"ev":"Damaged","changed":changed,"size":damaged.len()}));
+        undo = Some((target, orig));
+    }
+    dump_inner(s);
+    if let Some((target, orig)) = undo {
+        let _ = std::fs::remove_file(&target);
+        std::fs::write(&target, &orig).expect("restore damaged file");
+    }
+    emit(json!({"ev":"End","scn":s.id}));
+}
+
+fn dump_inner(s: &DumpScn) {
     let r = catch(|| jbk::reader::Container::new(&s.file));
     match r {
         Ok(Ok(c)) => {
@@ -268,7 +373,6 @@ pub fn dump(s: &DumpScn) {
         Ok(Err(e)) => emit(json!({"ev":"Dump","open":"err","err":e.to_string()})),
         Err(p) => emit(json!({"ev":"Dump","open":"panic","panic":p,"site":crate::out::last_panic_site()})),
     }
-    emit(json!({"ev":"End","scn":s.id}));
 }
 
 // ------------------------------------------------------------------ tools (concat, set_location, manifest view)
